@@ -728,53 +728,83 @@ func ruleP04PauseArith(p *Prog, r *Report) {
 	const rule = "P04-pause-arith"
 	run := p.method("klog/app/cli", "Pause", "Run")
 	diff := p.fn("klog/app/cli", "diffInMinutes")
-	if !r.anchorFn(rule, run, "cli.(*Pause).Run") || !r.anchorFn(rule, diff, "cli.diffInMinutes") {
+	if !r.anchorFn(rule, run, "cli.(*Pause).Run") {
 		return
 	}
-	// diffInMinutes(a, b) = (a.Unix() - b.Unix()) / 60
-	for _, ret := range returnsOf(diff) {
-		ok := false
-		v := strip(retResult(ret, 0))
+	// (a.Unix() - b.Unix()) / 60 — in the helper diffInMinutes(a, b), or written out where the
+	// elapsed minutes are needed
+	minuteDiff := func(v ssa.Value) (a, b ssa.Value, ok bool) {
+		v = strip(v)
 		if cv, isConv := v.(*ssa.Convert); isConv {
-			v = cv.X
+			v = strip(cv.X)
 		}
-		if b, isBin := v.(*ssa.BinOp); isBin && b.Op == token.QUO {
-			if k, isK := constInt(b.Y); isK && k == 60 {
-				num := b.X
-				if cv, isConv := num.(*ssa.Convert); isConv {
-					num = cv.X
-				}
-				pl := polyOf(num)
-				// expect +1*Unix(param0) -1*Unix(param1)
-				if len(pl.Terms) == 2 && pl.C == 0 {
-					pos, neg := "", ""
-					for k, c := range pl.Terms {
-						if c == 1 {
-							pos = k
-						} else if c == -1 {
-							neg = k
-						}
-					}
-					ok = strings.Contains(pos, "Unix") && strings.Contains(pos, diff.Params[0].Name()) && strings.Contains(neg, "Unix") && strings.Contains(neg, diff.Params[1].Name())
-				}
+		q, isBin := v.(*ssa.BinOp)
+		if !isBin || q.Op != token.QUO {
+			return nil, nil, false
+		}
+		if k, isK := constInt(q.Y); !isK || k != 60 {
+			return nil, nil, false
+		}
+		num := strip(q.X)
+		if cv, isConv := num.(*ssa.Convert); isConv {
+			num = strip(cv.X)
+		}
+		sub, isSub := num.(*ssa.BinOp)
+		if !isSub || sub.Op != token.SUB {
+			return nil, nil, false
+		}
+		n1, r1, _, _ := methodCall(sub.X)
+		n2, r2, _, _ := methodCall(sub.Y)
+		if n1 != "Unix" || n2 != "Unix" || r1 == nil || r2 == nil {
+			return nil, nil, false
+		}
+		return r1, r2, true
+	}
+	var elapsed ssa.Value // the elapsed minutes as the loop computes them
+	var elapsedAt ssa.Instruction
+	var a0, a1 ssa.Value
+	var loop *ssa.Function
+	if diff != nil {
+		for _, ret := range returnsOf(diff) {
+			a, b, ok := minuteDiff(retResult(ret, 0))
+			ok = ok && strip(a) == ssa.Value(diff.Params[0]) && strip(b) == ssa.Value(diff.Params[1])
+			r.check(ok, rule, "diffInMinutes", p.instrPos(ret), "diffInMinutes(a,b) = (a.Unix() - b.Unix()) / 60", "diffInMinutes is not (first.Unix() - second.Unix()) / 60")
+		}
+		// the loop closure: the one that calls diffInMinutes
+		for _, f := range withAnons(run) {
+			if len(callsTo(f, diff)) > 0 {
+				loop = f
 			}
 		}
-		r.check(ok, rule, "diffInMinutes", p.instrPos(ret), "diffInMinutes(a,b) = (a.Unix() - b.Unix()) / 60", "diffInMinutes is not (first.Unix() - second.Unix()) / 60")
-	}
-	// the loop closure: the one that calls diffInMinutes
-	var loop *ssa.Function
-	for _, f := range withAnons(run) {
-		if len(callsTo(f, diff)) > 0 {
-			loop = f
+		if loop == nil {
+			r.bad(rule, "loop", p.pos(run.Pos()), "the pause loop does not measure elapsed minutes with diffInMinutes")
+			return
 		}
+		dc0 := callsTo(loop, diff)[0]
+		elapsed, elapsedAt = dc0.Value(), dc0
+		a0, a1 = dc0.Common().Args[0], dc0.Common().Args[1]
+	} else {
+		for _, f := range withAnons(run) {
+			eachInstr(f, func(in ssa.Instruction) {
+				v, isV := in.(ssa.Value)
+				if !isV {
+					return
+				}
+				if _, isQ := in.(*ssa.BinOp); !isQ {
+					return
+				}
+				if a, b, ok := minuteDiff(v); ok {
+					loop, elapsed, elapsedAt, a0, a1 = f, v, in, a, b
+				}
+			})
+		}
+		if loop == nil {
+			r.undecided(rule, "loop", p.pos(run.Pos()), "neither diffInMinutes nor a written-out (a.Unix() - b.Unix()) / 60 was found in the pause loop")
+			return
+		}
+		r.ok(rule, "diffInMinutes", p.instrPos(elapsedAt), "elapsed minutes = (a.Unix() - b.Unix()) / 60, written out in the loop")
 	}
-	if loop == nil {
-		r.bad(rule, "loop", p.pos(run.Pos()), "the pause loop does not measure elapsed minutes with diffInMinutes")
-		return
-	}
-	dc := callsTo(loop, diff)[0]
-	// inc = diffInMinutes(ctx.Now(), start) - captured
-	a0, a1 := dc.Common().Args[0], dc.Common().Args[1]
+	dc := elapsedAt
 	n0, _, _, _ := methodCall(a0)
 	okArgs := n0 == "Now"
 	var startCell *ssa.Alloc
@@ -833,7 +863,11 @@ func ruleP04PauseArith(p *Prog, r *Report) {
 	// expected: -(diff - captured) = -diff + captured
 	var capturedKey, diffKey string
 	for k := range incPoly.Terms {
-		if strings.Contains(k, "diffInMinutes") || incPoly.leafV[k] == dc.Value() {
+		lv := strip(incPoly.leafV[k])
+		if cv, isConv := lv.(*ssa.Convert); isConv && strip(cv.X) == elapsed {
+			lv = elapsed
+		}
+		if strings.Contains(k, "diffInMinutes") || incPoly.leafV[k] == elapsed || lv == elapsed {
 			diffKey = k
 		} else {
 			capturedKey = k
